@@ -675,6 +675,8 @@ func groupTree(s *simrt.Sim) {
 	}
 	if optOut >= 0 {
 		d := s.Choose(6)
+		again := s.Choose(3) == 2
+		nagain := s.Choose(3)
 		s.Go("poolshutdown", func() {
 			for k := 0; k < d; k++ {
 				simrt.Yield()
@@ -684,6 +686,16 @@ func groupTree(s *simrt.Sim) {
 			worlds[optOut].shutdownInv = t
 			s.Probe("no-cancel-pool-of-a-group-shut-down-on-its-own")
 			pools[optOut].Shutdown()
+			if again {
+				// a pool of the same name is created in the group as soon as Shutdown has returned - the old one is not
+				// running any more but may still be working off what it had accepted: both count for the group
+				s.Probe("pool-recreated-under-the-same-name-while-the-old-one-drains")
+				pi := mk(root, "keep", workerpool.WithCancelPendingTasksOnShutdown(false))
+				nodes[0].pools = append(nodes[0].pools, pi)
+				for k := 0; k < nagain; k++ {
+					worlds[pi].submit(pools[pi], fmt.Sprintf("keep2.%d", k), s.Choose(3), 0)
+				}
+			}
 			pools[optOut].ShutdownComplete.Wait()
 		})
 	}
